@@ -1375,7 +1375,11 @@ fn decode_item(line: &str, spec: &Spec) -> Option<Item> {
 }
 
 fn shrink_case(c: &Case, spec: &Spec, d: &Dispatch) -> Case {
-    let fails = |cc: &Case| cc.well_formed(spec) && oracle_value(cc, &run_impl(cc, spec, d), spec).is_some();
+    let fails = |cc: &Case| {
+        cc.well_formed(spec)
+            && has_instance(d, spec, cc.shape, cc.src, cc.from, cc.to)
+            && oracle_value(cc, &run_impl(cc, spec, d), spec).is_some()
+    };
     let mut cur = c.clone();
     // fewer elements
     let elems = shrink_list(&cur.elems, |es| fails(&Case { elems: es.to_vec(), ..cur.clone() }));
@@ -1457,24 +1461,33 @@ fn main() {
     rep.bump_by("convertible pairs (code)", code_pairs.len() as u64);
     rep.bump_by("convertible pairs (specification)", spec_pairs.len() as u64);
 
+    // the thorough tier repeats the generated part in rounds (one driver batch per round, bounded memory)
+    let replaying = args.replay.is_some();
+    let rounds = if replaying { 1 } else if thorough { 6 } else { 1 };
+    let mut disagreeing: Vec<Case> = vec![];
+    for round in 0..rounds {
     let mut items: Vec<Item> = vec![];
     if let Some(line) = args.replay_case() {
         // a correspondence replay carries the request after " ## "
         let line = line.split(" ## ").next().unwrap_or("").to_string();
         items.extend(decode_item(&line, &spec));
+    } else if replaying {
+        rep.notes.push("replay file has no case".into());
     } else {
-        for l in args.corpus_cases() {
-            match decode_item(&l, &spec) {
-                Some(i) => items.push(i),
-                None => rep.notes.push(format!("corpus line not understood: {l}")),
+        if round == 0 {
+            for l in args.corpus_cases() {
+                match decode_item(&l, &spec) {
+                    Some(i) => items.push(i),
+                    None => rep.notes.push(format!("corpus line not understood: {l}")),
+                }
             }
-        }
-        // (1) exhaustive: every RATIO, every name
-        for (a, b) in &spec_pairs {
-            items.push(Item::Ratio(*a, *b));
-        }
-        for a in 0..spec.tags.len() {
-            items.push(Item::Name(a));
+            // (1) exhaustive: every RATIO, every name
+            for (a, b) in &spec_pairs {
+                items.push(Item::Ratio(*a, *b));
+            }
+            for a in 0..spec.tags.len() {
+                items.push(Item::Name(a));
+            }
         }
         // (2) every pair × every shape, structured and nasty payloads
         let per = if thorough { 60 } else { 6 };
@@ -1556,6 +1569,11 @@ fn main() {
             }
             Item::Value(c) => {
                 let enc = c.encode(&spec);
+                if !has_instance(&disp, &spec, c.shape, c.src, c.from, c.to) {
+                    // (corpus / replay lines only: the generators never produce these)
+                    rep.notes.push(format!("skipped, the harness has no instantiation of this shape for this pair: {enc}"));
+                    continue;
+                }
                 let out = run_impl(c, &spec, &disp);
                 let ratio = ratio_of.get(&(c.from, c.to)).copied().unwrap_or(1.0);
                 let dishonest = c.elems.iter().any(|e| !is_honest(e, c.from)) && c.shape != Shape::Plain;
@@ -1637,7 +1655,6 @@ fn main() {
     }
 
     // model
-    let mut disagreeing: Vec<Case> = vec![];
     match run_driver(&args.driver, "units", &requests) {
         Some(replies) => {
             for (((component, case, ans), req), reply) in expected.iter().zip(requests.iter()).zip(replies.iter()) {
@@ -1654,6 +1671,7 @@ fn main() {
         }
         None => rep.driver_available = false,
     }
+    } // rounds
 
     // targeted search around disagreements that no oracle failure explains
     if rep.oracle_failures.is_empty() && !rep.disagreements.is_empty() {
